@@ -95,7 +95,7 @@ func TestC15(t *testing.T) {
 	}
 
 	light := 0
-	for i, sc := range scns {
+	for _, sc := range scns {
 		if deadlinePassed(deadline) {
 			cov.complete = false
 			break
